@@ -235,7 +235,8 @@ class IeeeJob:
         except Unsupported as e:
             ob.status, ob.detail = 'error', 'Unsupported: %s' % e
         except Exception as e:
-            ob.status, ob.detail = 'error', '%s: %s' % (type(e).__name__, e)
+            import traceback
+            ob.status, ob.detail = 'error', '%s: %s | %s' % (type(e).__name__, e, traceback.format_exc()[-600:])
         return ob
 
     # ------------------------------------------------------------------ counterexample replay
